@@ -290,7 +290,8 @@ class AutomaticRegistrationService(BytesInterface, LoggingTrait):
             )
         elif self.header.pdu_type == ARSPDUType.ARS_DEVICE_OR_QUERY_RESPONSE:
             payload += (
-                self.response_second_header.as_bytes(endian=endian)
+                # second header holds both values, first header says which one is sent
+                self.response_second_header.context(self.header).as_bytes(endian=endian)
                 if self.header.has_more_headers
                 else b""
             )
